@@ -663,10 +663,9 @@ class Model:
 
         """
         agent_count = 0
-        agent_ids = self.agent_type_map[agent_type]
 
-        for agent_id in agent_ids:
-            if self.agents[agent_id].state == state:
+        for agent in self.agents:
+            if agent.agent_type == agent_type and agent.state == state:
                 agent_count += 1
 
         return agent_count
